@@ -251,7 +251,7 @@ struct World {
     const vj::Value& f = op["fault"];
     if (f.kind == vj::Value::Str) F.mode = f.str;
     else if (f.kind == vj::Value::Bool && f.b) F.mode = "all";
-    if (!F.mode.empty() && &asmjit_verif_arena_fail != nullptr) { asmjit_verif_arena_fail = fault_hook; F.armed = true; }
+    if (!F.mode.empty() && &::asmjit_verif_arena_fail != nullptr) { ::asmjit_verif_arena_fail = fault_hook; F.armed = true; }
   }
   void disarm() { F.armed = false; }
   void begin(const char* e) { w.beginObj().kv("e", e); nevents++; }
@@ -757,7 +757,7 @@ static void exec_boundary(World& w, vj::Rng& r) {
 int main(int argc, char** argv) {
   if (argc < 3) { fprintf(stderr, "usage: registry script <scripts> <trace> | random <trace> <n> <profile>\n"); return 3; }
   std::string mode = argv[1];
-  if (&asmjit_verif_arena_fail == nullptr) fprintf(stderr, "registry: hook H1 is not present in this tree - no failures are injected\n");
+  if (&::asmjit_verif_arena_fail == nullptr) fprintf(stderr, "registry: hook H1 is not present in this tree - no failures are injected\n");
   if (mode == "script") {
     auto scripts = vj::read_ndjson(argv[2]);
     FILE* out = fopen(argv[3], "w");
